@@ -33,6 +33,11 @@ CHECKS = {
         "technique": "Lean 4 proof (line arithmetic, update homomorphism for line breaks) + Lean-checked trace certificates",
         "ref": "DESIGN.md §3 C07",
     },
+    "C10": {
+        "text": "Lean theorems (any rule semantics): if the re-analysis after a rule's own fix offers nothing that passes the fix-only filter, the second Rule.fix is the identity and does not set had_violations (second_fix_identity); violations whose _fix_violation hands back the analysed slice unchanged make a chain update the identity (unrepairable_noop), hence a second fix is the identity as soon as everything still reported is unrepairable. Tie: inside instrumented phase-ordered fix runs over the corpus, re-layout variants and random configurations, every rule that changed the token list is immediately applied again (its real fix) to a deep copy of the model; the copy's (class, value) sequence must not change. Partial: the rules' analyses/fixes are layer U, so idempotence of a given rule is decided on the explored (state, rule) pairs, not for all inputs.",
+        "technique": "Lean 4 proof (engine reduction) + re-application of every fired rule on a deep copy inside real fix runs",
+        "ref": "DESIGN.md §3 C10",
+    },
     "C16": {
         "text": "Lean model of write_vhdl_file / apply_rules' write decision / --backup as a file-system state machine in which every OS call may succeed, raise PermissionError, raise another OSError or be the crash point (incl. partial writes, buffered or not). Theorems for ALL fault schedules, contents, modes and stale .tmp/.bak files: at every crash point and at the end the target holds the original or the complete fixed content with the original mode (writeBack_safe); tmp is removed unless os.remove itself fails (tmp_cleaned, with the excluded case proved as a witness and reproduced on the real code); the backup is faithful; parse/config errors, no --fix, no violations and a raising rule perform no write. Tie: the real apply_rules runs on temp files with faults injected at every os/open/write/chmod/replace/remove/copy2 call index (exceptions in-process, crashes via os._exit in a child, plus genuine kernel faults: RLIMIT_FSIZE, unprivileged uid + read-only directory); op trace and final file system state compared with the Lean driver's prediction for the same schedule, and the property judged on the real bytes and st_mode.",
         "technique": "Lean 4 proof over all fault schedules + fault/crash injection on the real write path compared with the Lean model",
